@@ -303,6 +303,24 @@ func checkFormatStrings(c *core.Ctx, rule string, pkgs []string) {
 			if tv := info.Types[call.Args[idx]]; tv.Value != nil {
 				return true
 			}
+			// a printf wrapper: the format is a parameter of an unexported function, and every caller hands a
+			// constant to that parameter
+			if k := paramIndex(fn, info, call.Args[idx]); k >= 0 && fn.Obj != nil && !fn.Obj.Exported() {
+				callers := staticCallers(p, fn)
+				allConst := len(callers) > 0
+				for _, cs := range callers {
+					if k >= len(cs.call.Args) || cs.call.Ellipsis.IsValid() {
+						allConst = false
+						continue
+					}
+					if tv := cs.fn.Info().Types[cs.call.Args[k]]; tv.Value == nil {
+						allConst = false
+					}
+				}
+				if allConst {
+					return true
+				}
+			}
 			n++
 			c.SawFunc(name)
 			c.Bad(rule, fmt.Sprintf("%s→%s.%s#%d", name, f.Pkg().Name(), f.Name(), n), call.Pos(), 1,
